@@ -754,6 +754,12 @@ func (g *FuncGen) run() {
 				tgt = ix.X
 			}
 			lcx := g.newSpecCtx(g.st, g.entry)
+			lcx.locals = true
+			for _, l := range g.loops {
+				if l.ordinal == n {
+					lcx.at = l.header
+				}
+			}
 			for _, loc := range lcx.locations(tgt) {
 				for _, l := range g.loops {
 					if l.ordinal == n {
@@ -1145,6 +1151,11 @@ func (g *FuncGen) backEdge(from *ssa.BasicBlock, l *loopInfo, edgeCond string) {
 		cx.locals = true
 		cx.at = l.header
 		for _, h := range l.spec.Hints {
+			if g.env.isLemmaInstance(h.E) {
+				// an instance of a proved lemma / defining equation at the end of the loop body
+				g.assume(cx.assumeTerm(h.E))
+				continue
+			}
 			g.oblig("hint", fmt.Sprintf("loop%d:%s", l.ordinal, h.Name), cx.boolTerm(h.E), from.Instrs[len(from.Instrs)-1].Pos(), h.Props, h.Src)
 			g.assume(cx.assumeTerm(h.E))
 		}
